@@ -25,6 +25,9 @@ def run(tier, seed, t0):
     # operands shared between threads (const inputs): exactness natively, and any write to a shared operand under TSan
     for i, T in enumerate((4, 16) if thorough else (4,)):
         jobs.append(Job("shared-optim-T%d" % T, "drv_c11", "optim", "spqlios-fma", ["--mode", "shared", "--threads", T, "--iters", 1200 if thorough else 300, "--seed", seed + 3 + i], meta={"leaks": False}))
+    # little stack left in the calling context (threads with a 32 KiB stack; 16 KiB is the platform minimum)
+    jobs.append(Job("smallstack-optim", "drv_c11", "optim", "spqlios-fma", ["--mode", "smallstack", "--stack_kib", 32, "--maxN", 2048, "--seed", seed + 6], meta={"leaks": False}))
+    jobs.append(Job("smallstack-debug", "drv_c11", "debug", "nayuki-portable", ["--mode", "smallstack", "--stack_kib", 48, "--maxN", 1024, "--seed", seed + 6], meta={"leaks": False}))
     jobs.append(Job("shared-debug", "drv_c11", "debug", "nayuki-portable", ["--mode", "shared", "--threads", 4, "--iters", 120, "--seed", seed + 4]))
     jobs.append(Job("shared-tsan", "drv_c11", "tsan", "nayuki-portable", ["--mode", "shared", "--threads", 3, "--iters", 60, "--seed", seed + 5], tool="tsan", timeout=1800, meta={"leaks": False}))
     return vcheck.simple_run("C11", tier, seed, t0, jobs, "exploration", RULE,
